@@ -2,7 +2,10 @@
 
 Every page-size sequence (sizes 0-2, up to 4/5 pages, empty pages anywhere) x access pattern x
 row factory x protocol version is run through a real Session and ResultSet against a virtual
-node that pages by the paging state it is given.
+node that pages by the paging state it is given.  A fault layer makes the request for a later page
+fail (error rethrown, all hosts failing, client timeout, error ignored, transparent retry) under an
+application that catches the error and keeps reading: still every row once, in order, and every
+request carries the state returned with the last page received.
 """
 import itertools
 
@@ -313,7 +316,7 @@ def run_chunk(cases):
         part.sample(dict(case, rows=got, requests=[r.decode() if r else None for r in reqs], caught=seen), limit=2)
         shape = 'empty-page' if 0 in sizes else 'full-pages'
         if faults:
-            shape = 'after-' + '+'.join(sorted(set(k for _, k in faults)))
+            shape = 'after-' + faults[0][1]        # the first fault that hits
         if err:
             part.violation('C18/raised/%s/%s' % (pattern, shape), '%s for %r' % (err, case), case)
             continue
